@@ -375,3 +375,8 @@ def check(run, prog):
     rule_tabstops(run, prog)
     from .c09_linesplit import rule_line_split
     rule_line_split(run, prog, "R-9.7")
+    # a stale cache of anything derived from the cursor shows the sub-parsers a character that is no longer there
+    from .c12 import rule_position_caches
+    rule_position_caches(run, prog, "R-9.8")
+    from .c03_comment_layout import rule_comment_layout
+    rule_comment_layout(run, prog, "R-9.9")
